@@ -1416,7 +1416,9 @@ fn exec(op: &str, args: &[Sexp]) -> Ans {
 				W::Err => Ans::out_of_domain(),
 				W::Panic => Ans::fail("panic"),
 				W::Ok(out) => match catch_unwind(AssertUnwindSafe(|| duke::read_class(&mut Cursor::new(&out)))) {
-					Ok(Ok(t2)) => if t1 == t2 || format!("{t1:?}") == format!("{t2:?}") { Ans::pass() } else { Ans::fail("differs") },
+					// equal trees, or equal once the label ids are read as the instruction that carries them (the harness' own projection)
+					Ok(Ok(t2)) => if t1 == t2 || format!("{t1:?}") == format!("{t2:?}")
+						|| matches!((fvh::c01facts::class(&t1, true), fvh::c01facts::class(&t2, true)), (Ok(a), Ok(b)) if a == b) { Ans::pass() } else { Ans::fail("differs") },
 					_ => Ans::fail("reread"),
 				},
 			}
@@ -1426,9 +1428,106 @@ fn exec(op: &str, args: &[Sexp]) -> Ans {
 }
 
 /// the fragment of `Thm.C02.class_write_read_partial` as far as it is visible in a tree that was read (valid names, flags within
-/// their masks, well-typed constants and annotations nested at most 255 levels hold for every duke tree that was read): no `Code`
+/// their masks, well-typed constants and annotations nested at most 255 levels hold for every duke tree that was read): method bodies
+/// as in `ClassWriteFull.CodeOk`
 fn in_writer_fragment(c: &ClassFile) -> bool {
-	c.methods.iter().all(|m| m.code.is_none())
+	c.methods.iter().all(|m| match &m.code { None => true, Some(code) => code_in_fragment(code) })
+}
+
+/// `ClassWriteFull.CodeOk` (lean/FeatherModel/Lemmas/ClassWriteFullCode.lean, `RCodeOk`) on the harness' own resolved projection of the
+/// method body (label ids read as the index of the instruction carrying them; a dangling label = `Code.resolve` fails), as far as the
+/// conditions can fail for a tree duke read (operand ranges and valid names hold by the types / the reader's checks):
+/// no `invokedynamic`, no `Dynamic` constant, `Uninitialized` labels of stack map frames on instructions, every target an instruction, at most 32767 bytes by the syntactic
+/// bound (longest form of every instruction), exception ranges `start < n`, `end <= n`, `handler < n`, line entries on instructions,
+/// local variables `None` or non-empty with exactly one of descriptor / signature per entry and descriptor entries first, ranges
+/// `start < n`, `start <= end <= n`, type-annotation targets on instructions, no unknown attributes, fewer than 65535 label references
+fn code_in_fragment(c: &duke::tree::method::code::Code) -> bool {
+	let Ok(s) = fvh::c01facts::code(c, true) else { return false };
+	rcode_ok(&s).unwrap_or(false)
+}
+
+fn rcode_ok(s: &Sexp) -> R<bool> {
+	let it = s.as_list()?;
+	let [_, _max_stack, _max_locals, insns, exc, _last, lines, locals, rvta, ritva, attrs] = it else { return Err("code shape".into()) };
+	let insns = insns.as_list()?;
+	let n = insns.len();
+	let (mut size, mut refs) = (0usize, 0usize);
+	for e in insns {
+		let e = e.as_list()?;
+		if let Some(f) = e[1].as_opt()? {
+			// one label look-up for the frame's own offset, one per `Uninitialized` type
+			refs += 1;
+			let mut vts: Vec<&Sexp> = Vec::new();
+			if let Sexp::List(f) = f {
+				match f[0].as_atom()? {
+					"same1" => vts.push(&f[1]),
+					"chop" => {}
+					"append" => vts.extend(f[1].as_list()?),
+					"full" => { vts.extend(f[1].as_list()?); vts.extend(f[2].as_list()?); }
+					other => return Err(format!("frame {other}")),
+				}
+			}
+			for v in vts {
+				if let Sexp::List(v) = v { if v[0].as_atom()? == "uninit" { if v[1].as_nat()? >= n { return Ok(false) } refs += 1; } }
+			}
+		}
+		let i = e[2].as_list()?;
+		let mut targets: Vec<usize> = Vec::new();
+		size += match i[0].as_atom()? {
+			"simple" => 1, "bipush" => 2, "sipush" => 3,
+			"ldc" => { if i[1].as_list()?[0].as_atom()? == "dyn" { return Ok(false) } 3 }
+			"load" | "store" => 4, "iinc" => 6, "ret" => 4,
+			"branch" => { targets.push(i[2].as_nat()?); 8 }
+			"goto" | "jsr" => { targets.push(i[1].as_nat()?); 5 }
+			"tableswitch" => { targets.push(i[1].as_nat()?); for t in i[4].as_list()? { targets.push(t.as_nat()?); } 16 + 4 * i[4].as_list()?.len() }
+			"lookupswitch" => { targets.push(i[1].as_nat()?); for kt in i[2].as_list()? { targets.push(kt.as_list()?[1].as_nat()?); } 12 + 8 * i[2].as_list()?.len() }
+			"field" | "invokevirtual" | "invokespecial" | "invokestatic" | "new" | "anewarray" | "checkcast" | "instanceof" => 3,
+			"invokeinterface" => 5, "invokedynamic" => return Ok(false), "newarray" => 2, "multianewarray" => 4,
+			other => return Err(format!("instruction {other}")),
+		};
+		if targets.iter().any(|&t| t >= n) { return Ok(false) }
+		refs += targets.len();
+	}
+	if size > 32767 { return Ok(false) }
+	for e in exc.as_list()? {
+		let e = e.as_list()?;
+		if !(e[0].as_nat()? < n && e[1].as_nat()? <= n && e[2].as_nat()? < n) { return Ok(false) }
+		refs += 3;
+	}
+	if let Some(ls) = lines.as_opt()? {
+		for e in ls.as_list()? { if e.as_list()?[0].as_nat()? >= n { return Ok(false) } refs += 1; }
+	}
+	if let Some(vs) = locals.as_opt()? {
+		let vs = vs.as_list()?;
+		if vs.is_empty() { return Ok(false) }
+		let mut seen_sig = false;
+		for v in vs {
+			let v = v.as_list()?;
+			let (a, b, desc, sig) = (v[0].as_nat()?, v[1].as_nat()?, v[3].as_opt()?.is_some(), v[4].as_opt()?.is_some());
+			if desc == sig || (desc && seen_sig) { return Ok(false) }
+			seen_sig |= sig;
+			if !(a < n && a <= b && b <= n) { return Ok(false) }
+			refs += 2;
+		}
+	}
+	for tas in [rvta, ritva] {
+		for ta in tas.as_list()? {
+			let t = ta.as_list()?[0].as_list()?;
+			match t[0].as_atom()? {
+				"local-var" => for e in t[2].as_list()? {
+					let e = e.as_list()?;
+					let (a, b) = (e[0].as_nat()?, e[1].as_nat()?);
+					if !(a < n && a <= b && b <= n) { return Ok(false) }
+					refs += 2;
+				},
+				"exception-param" => {}
+				"offset" | "offset-arg" => { if t[2].as_nat()? >= n { return Ok(false) } refs += 1; }
+				_ => return Ok(false),
+			}
+		}
+	}
+	if !attrs.as_list()?.is_empty() { return Ok(false) }
+	Ok(refs < 65535)
 }
 
 // ------------------------------------------------------------------------------------------------ generators
@@ -2290,7 +2389,7 @@ fn gen_class_write(r: &mut Rng, thorough: bool, out: &mut Out) {
 			out.op("class-write", &[hex(&bytes)]);
 			out.op("oracle-class-write-read", &[hex(&bytes)]);
 		}
-		// the same class cut down to the proved fragment of `class_write_read_partial`: no Code
+		// the same class without method bodies (always inside the proved fragment of `class_write_read_partial`)
 		let mut f = g.clone();
 		for m in &mut f.methods { m.code = None; }
 		let ch = Choices::random(r);
@@ -2301,6 +2400,59 @@ fn gen_class_write(r: &mut Rng, thorough: bool, out: &mut Out) {
 			out.op("class-write", &[hex(&bytes)]);
 			out.op("oracle-class-write-read", &[hex(&bytes)]);
 		}
+	}
+	// classes of the fragment with method bodies: stack map frames kept in every second class, `invokedynamic` / `Dynamic` constants replaced by `nop`, no unknown
+	// attributes of `Code`, local variables with descriptor entries first; half of them assembled in source order (then the tables are
+	// read back in the order the writer emits them), the others under a random encoding (forms, pool order, attribute order, split tables)
+	let n_code = if thorough { 4000 } else { 250 };
+	let mut made = 0;
+	let mut tries = 0;
+	while made < n_code && tries < 20 * n_code {
+		tries += 1;
+		let cfg = Cfg::random(r);
+		let mut st = fvh::run::Stats::default();
+		let mut f = c01gen::class(r, &cfg, &mut st);
+		if !f.methods.iter().any(|m| m.code.is_some()) { continue }
+		if r.chance(1, 2) { f.records.clear(); f.module = None; }
+		let (mut n_insns, mut n_branch, mut n_exc, mut n_switch, mut n_pool, mut n_frames) = (0u64, 0u64, 0u64, 0u64, 0u64, 0u64);
+		let keep_frames = r.chance(1, 2);
+		for m in &mut f.methods {
+			let Some(c) = &mut m.code else { continue };
+			for (fr, i) in &mut c.insns {
+				if !keep_frames { *fr = None; }
+				if fr.is_some() { n_frames += 1; }
+				if matches!(i, fvh::c01model::GInsn::InvokeDynamic { .. } | fvh::c01model::GInsn::Ldc(fvh::c01model::GLoadable::Dyn { .. })) { *i = fvh::c01model::GInsn::Simple(0); }
+				n_insns += 1;
+				match i {
+					fvh::c01model::GInsn::Branch(..) | fvh::c01model::GInsn::Goto(_) | fvh::c01model::GInsn::Jsr(_) => n_branch += 1,
+					fvh::c01model::GInsn::TableSwitch { .. } | fvh::c01model::GInsn::LookupSwitch { .. } => n_switch += 1,
+					fvh::c01model::GInsn::Ldc(_) | fvh::c01model::GInsn::Field(..) | fvh::c01model::GInsn::InvokeVirtual(_) | fvh::c01model::GInsn::InvokeSpecial(..)
+					| fvh::c01model::GInsn::InvokeStatic(..) | fvh::c01model::GInsn::InvokeInterface(_) | fvh::c01model::GInsn::New(_) | fvh::c01model::GInsn::ANewArray(_)
+					| fvh::c01model::GInsn::CheckCast(_) | fvh::c01model::GInsn::InstanceOf(_) | fvh::c01model::GInsn::MultiANewArray(..) => n_pool += 1,
+					_ => {}
+				}
+			}
+			n_exc += c.exceptions.len() as u64;
+			c.attrs.clear();
+			if let Some(v) = &mut c.locals {
+				v.sort_by_key(|lv| lv.sig.is_some());
+				if v.is_empty() { c.locals = None; }
+			}
+		}
+		let plain = r.chance(1, 2);
+		let ch = if plain { Choices::plain() } else { Choices::random(r) };
+		let Ok(bytes) = catch_unwind(AssertUnwindSafe(|| assemble(&f, &ch, r))) else { continue };
+		made += 1;
+		out.stats.hit(if plain { "class-write:fragment-code:source-order" } else { "class-write:fragment-code:random-encoding" });
+		out.stats.add("class-write:fragment-code:methods-with-code", f.methods.iter().filter(|m| m.code.is_some()).count() as u64);
+		out.stats.add("class-write:fragment-code:instructions", n_insns);
+		out.stats.add("class-write:fragment-code:jumps", n_branch);
+		out.stats.add("class-write:fragment-code:switches", n_switch);
+		out.stats.add("class-write:fragment-code:pool-operands", n_pool);
+		out.stats.add("class-write:fragment-code:exception-rows", n_exc);
+		out.stats.add("class-write:fragment-code:stack-map-frames", n_frames);
+		out.op("class-write", &[hex(&bytes)]);
+		out.op("oracle-class-write-read", &[hex(&bytes)]);
 	}
 	// classes of the fragment that do have a `Record` (components with Signature / annotations / type annotations / unknown
 	// attributes) resp. a `Module` attribute (requires / exports / opens / uses / provides), under random encodings
